@@ -464,8 +464,20 @@ func runExtract(c *Case, r *mon.Rec, fr specref.Framing, rng *rand.Rand) {
 			}
 			before := append(modbus.Fields(nil), hb.Fields...)
 			var v2 []modbus.FieldValue
-			pn, txt := mon.Catch(func() { v2, _ = hb.ExtractFields(resp, true) })
+			var x2 error
+			pn, txt := mon.Catch(func() { v2, x2 = hb.ExtractFields(resp, true) })
 			if !pn {
+				// with continue-on-errors the call's own error is the summary a caller looks at first: it says "some field
+				// failed" exactly when some returned value carries an error - wherever in the list that field stands
+				failed := 0
+				for _, fv := range v2 {
+					if fv.Error != nil {
+						failed++
+					}
+				}
+				if (x2 != nil) != (failed > 0) {
+					r.Violate(c, "lenient-error-summary-wrong", mon.Attrs{"fn": "ExtractFields", "failed_fields": failed > 0}, fmt.Sprintf("hand-built request with %d fields in shuffled order: %d returned values carry an error, the call itself returned error %v", len(hb.Fields), failed, x2))
+				}
 				var v3 []modbus.FieldValue
 				mon.Catch(func() { v3, _ = hb.ExtractFields(resp, true) })
 				same := len(v2) == len(v3)
